@@ -3,6 +3,8 @@ CONSTANTS
   MaxN = 2
   MaxC = 2
   MaxT = 6
+  MinN = 1
+  MinC = 1
   MaxSteps = 1000000
 INIT Init
 NEXT Next
